@@ -23,7 +23,7 @@ def block_positions(tier):
 def main(tier):
     c = srcposfam.run("C11", ("B", "N", "S"), tier, after_proofs=block_positions(tier))
     c.cov["partial_clauses"] = [
-        "block phase (Props/BlocksPos.v): line bounds proved for every input and option set for the `free_val` values only (not Paragraph / tables with the table extension on, nothing beyond 1 <= start with description lists on); start line <= end line only for ThematicBreak, fenced CodeBlock, MultilineBlockQuote; full statements BlocksPos_lines_full_statement, BlocksPos_start_le_end_full_statement are not proved; refuted with witnesses: HtmlBlock start after end (C11-h), empty Document 1:1-0:0 (C11-a), FrontMatter end line beyond the line counter",
+        "block phase (Props/BlocksPos.v): 1 <= start line / column proved for every node, input and option set; start / end line <= line counter for the `free_val` values only (every value but FrontMatter with the table extension off; not Paragraph / setext Heading / table kinds / DescriptionList / DescriptionItem with it on; nothing with table and description lists both on); start line <= end line only for ThematicBreak, fenced CodeBlock, MultilineBlockQuote and only with description lists off; full statements BlocksPos_lines_full_statement, BlocksPos_start_le_end_full_statement are not proved; refuted with witnesses: HtmlBlock start after end (C11-h), empty Document 1:1-0:0 (C11-a), FrontMatter end line beyond the line counter",
         "the global statement (forall inputs: in bounds and nested) is not proved; it is evaluated with the extracted predicates and FAILS in the known classes listed in known_findings.json (C11-a ...)",
         "nesting and sibling order are demanded only between reliable kinds (Spec/SourcePos.v `reliable`, quoted from the documentation)"]
     c.assumptions = ["Model/Spx.v is a hand transcription; the Rust bodies are compared with the transcribed text on every run (translator item srcpos)",
